@@ -91,6 +91,10 @@ FEATURE_SETS = [
     ("serde", ["--features", "serde"]),
     ("smallvec+serde", ["--features", "smallvec,serde"]),
     ("no-default+hardcoded-data", ["--no-default-features"]),
+    # the crate as users ship it: profile `relna` of harness/Cargo.toml (debug assertions and overflow checks OFF) and
+    # without --cfg unicode_bidi_verif; a side effect hidden in a debug_assert!, a wrap-around that only the overflow
+    # checks stop, or code under cfg(not(unicode_bidi_verif)) shows here and nowhere else
+    ("release-noassert", ["--profile", "relna", "--target-dir", "target-relna"]),
 ]
 
 
@@ -233,13 +237,18 @@ def lean_obligations(prop, log):
 
 def build_harness(extra, log, tag="default"):
     t0 = time.time()
-    rc, out = sh(["cargo", "build", "--release", "--offline"] + extra, cwd=HARN, timeout=3000)
+    if tag == "release-noassert":
+        rc, out = sh(["cargo", "build", "--offline"] + extra, cwd=HARN, env={"RUSTFLAGS": ""}, timeout=3000)
+        built = os.path.join(HARN, "target-relna", "relna", "ubidi-harness")
+    else:
+        rc, out = sh(["cargo", "build", "--release", "--offline"] + extra, cwd=HARN, timeout=3000)
+        built = os.path.join(HARN, "target", "release", "ubidi-harness")
     log.append("cargo build (%s): rc=%d %.1fs" % (tag, rc, time.time() - t0))
     if rc != 0:
         return None, out
     os.makedirs(WORK, exist_ok=True)
     dst = os.path.join(WORK, "harness-" + tag.replace("+", "_"))
-    shutil.copy2(os.path.join(HARN, "target", "release", "ubidi-harness"), dst)
+    shutil.copy2(built, dst)
     return dst, out
 
 
@@ -375,14 +384,14 @@ def main():
         names, axioms, obligations, discharged, broken = lean_obligations(prop, log)
     if not os.path.exists(DRIVER):
         print("run_check: driver missing; lake build failed:\n" + "\n".join(broken))
-    relevant_spec = set(["S:" + prop, "S:PANIC"] + cfg.get("spec_extra", []))
+    relevant_spec = set(["S:" + prop, "S:PANIC", "S:CONV"] + cfg.get("spec_extra", []))
     relevant_model = set(cfg["model"])
 
     results = []
     exhaustive_streams = []
     harness_problems = []
     digests = {}
-    feature_sets = FEATURE_SETS if prop == "C20" else FEATURE_SETS[:1]
+    feature_sets = FEATURE_SETS if prop == "C20" else [FEATURE_SETS[0], FEATURE_SETS[-1]]
     njobs = 16 if tier == "thorough" else 8
     total = cfg[tier]
     for tag, extra in feature_sets:
@@ -400,6 +409,11 @@ def main():
             for sname, share in cfg["streams"]:
                 # a share above 1 is an absolute number of cases (the exhaustive table sweeps: 2 operations)
                 cnt = int(share) if share > 1 else max(1, int(total * share))
+                if tag == "release-noassert" and prop != "C20":
+                    if sname == "STAGE":
+                        continue          # no hooks in this build
+                    if share <= 1 and not cfg.get("exhaustive"):
+                        cnt = max(1, cnt // 3)   # the same first cases as the default build
                 if sname in ("C14", "C15"):
                     shards = [(0, cnt)]
                 else:
